@@ -108,7 +108,7 @@ class TlcResult:
         self.finished = "Model checking completed" in out or "Finished computing initial states" in out and self.left == 0 and m is not None
         self.invariant_violations = re.findall(r"Error: Invariant (\w+) is violated", out)
         self.property_violations = re.findall(r"Error: (?:Action|Temporal) propert(?:y|ies) (\w+)?", out)
-        self.errors = [l for l in out.splitlines() if l.startswith("Error:")]
+        self.errors = [l for l in out.splitlines() if l.startswith("Error:") and "The behavior up to this point" not in l]
 
     def tuples(self, tag: str) -> list:
         """All PrintT(<<"tag", ToJson(x)>>) payloads, robust against interleaved worker output."""
